@@ -419,28 +419,15 @@ Proof.
     rewrite put_all_lookup_out in Ha by auto. rewrite consistent_spec in Hc. eauto.
 Qed.
 
-(* hasher.store -> NodeDatabase.insert (skipped when the hash is already dirty), immediately followed
-   by the leaf callback's Reference calls for that node; InsertBlob for code.  The new dirty node's
-   blob references must be on disk or tracked dirty children; hash addressing: if the hash is already
-   known, it names the same blob. *)
-Definition insert_ok (s : store) (h : hash) (n : dnode) : Prop :=
-  Forall (λ x, is_Some (disk s !! x) ∨ (x ∈ tracked n ∧ is_Some (cache s !! x))) (refs n)
-  ∧ (∀ a, view s !! h = Some a → a = refs n).
-Definition cache_insert (s : store) (h : hash) (n : dnode) : store :=
-  match cache s !! h with
-  | Some _ => s                                             (* "If the node's already cached, skip" *)
-  | None => Store (disk s) (<[h := n]> (cache s))
-  end.
-
-(* NodeDatabase.reference(child, parent) on a parent that is already dirty: a dirty child that is
-   not yet an external child becomes tracked; anything else is skipped. *)
-Definition cache_reference (s : store) (child parent : hash) : store :=
-  match cache s !! parent, cache s !! child with
-  | Some n, Some _ =>
-    if decide (child ∈ tracked n) then s
-    else Store (disk s) (<[parent := DNode (child :: tracked n) (refs n)]> (cache s))
-  | _, _ => s
-  end.
+Lemma insert_okb_sound s h n : insert_okb s h n = true → insert_ok s h n.
+Proof.
+  unfold insert_okb, insert_ok. rewrite andb_true_iff. intros [H1 H2]. split.
+  - apply Forall_forall. intros x Hx. rewrite forallb_forall in H1.
+    apply elem_of_list_In in Hx. specialize (H1 x Hx).
+    apply orb_true_iff in H1 as [H1|H1]; [left; by apply bool_decide_eq_true in H1|right].
+    apply andb_true_iff in H1 as [Ha Hb]. split; by eapply bool_decide_eq_true.
+  - intros a Ha. rewrite Ha in H2. by apply bool_decide_eq_true in H2.
+Qed.
 
 Lemma insert_preserves_inv s h n : inv s → insert_ok s h n → inv (cache_insert s h n).
 Proof.
@@ -462,12 +449,12 @@ Proof.
     + rewrite lookup_insert_ne in Hn' by done. rewrite consistent_spec in Hc. eauto.
 Qed.
 
-Lemma reference_preserves_inv s child parent : inv s → inv (cache_reference s child parent).
+Lemma reference_preserves_inv s again child parent : inv s → inv (cache_reference s again child parent).
 Proof.
   intros (Hd & Hcc & Hc). unfold cache_reference.
   destruct (cache s !! parent) as [n|] eqn:Ep; [|done].
   destruct (cache s !! child) as [nc|] eqn:Ec; [|done].
-  destruct (decide (child ∈ tracked n)); [done|].
+  destruct (again || bool_decide (child ∉ tracked n)); [|done].
   unfold inv. simpl. split; [done|split].
   - apply cache_closed_spec. simpl. intros h' n' x Hh' Hx.
     rewrite cache_closed_spec in Hcc.
@@ -485,25 +472,25 @@ Proof.
     + rewrite lookup_insert_ne in Hn' by done. eauto.
 Qed.
 
-(* node-store histories: dirty inserts, references and commits, starting from the empty store *)
-Inductive op :=
-| OInsert (h : hash) (n : dnode)
-| OReference (child parent : hash)
-| OCommit (r : hash) (seq : list hash).
-Definition op_ok (s : store) (o : op) : Prop :=
-  match o with
-  | OInsert h n => insert_ok s h n
-  | OReference _ _ => True
-  | OCommit r seq => run (cache s) r seq
-  end.
-Definition step (s : store) (o : op) : store :=
-  match o with
-  | OInsert h n => cache_insert s h n
-  | OReference c p => cache_reference s c p
-  | OCommit r seq => after_commit s seq
-  end.
-Fixpoint hist_ok (s : store) (ops : list op) : Prop :=
-  match ops with [] => True | o :: tl => op_ok s o ∧ hist_ok (step s o) tl end.
+(* a Write error in the middle of a commit: k puts are on disk, nothing was uncached *)
+Lemma fail_preserves_inv s r seq k :
+  inv s → run (cache s) r seq → inv (Store (crash s seq k) (cache s)).
+Proof.
+  intros (Hd & Hcc & Hc) Hrun. unfold inv. simpl. split; [by eapply prefix_closed|split].
+  - apply cache_closed_spec. simpl. intros h n x Hh Hx. rewrite cache_closed_spec in Hcc.
+    destruct (Hcc h n x Hh Hx) as [H|H]; [left|by right]. by apply put_all_is_Some.
+  - apply consistent_spec. simpl. intros h a n Ha Hn.
+    apply (put_all_view s) in Ha; [|done]. rewrite view_lookup, Hn in Ha. congruence.
+Qed.
+
+(* a crash in the middle of a commit: k puts are on disk, the dirty cache is lost *)
+Lemma crash_preserves_inv s r seq k :
+  inv s → run (cache s) r seq → inv (Store (crash s seq k) ∅).
+Proof.
+  intros (Hd & Hcc & Hc) Hrun. unfold inv. simpl. split; [by eapply prefix_closed|split].
+  - apply cache_closed_spec. simpl. intros h n x Hh. by rewrite lookup_empty in Hh.
+  - apply consistent_spec. simpl. intros h a n _ Hn. by rewrite lookup_empty in Hn.
+Qed.
 
 Lemma inv_empty : inv (Store ∅ ∅).
 Proof.
@@ -513,13 +500,43 @@ Proof.
   - apply consistent_spec. simpl. intros h a b H. by rewrite lookup_empty in H.
 Qed.
 
-Lemma hist_inv s ops : inv s → hist_ok s ops → inv (foldl step s ops).
+Lemma step_inv s o : inv s → op_ok s o → inv (step s o).
 Proof.
-  revert s. induction ops as [|o tl IH]; intros s Hi Hok; [done|]. destruct Hok as [Ho Hok].
-  simpl. apply IH; [|done]. destruct o; simpl in *.
+  intros Hi Ho. destruct o; simpl in *.
   - by apply insert_preserves_inv.
   - by apply reference_preserves_inv.
   - by eapply commit_preserves_inv.
+  - by eapply fail_preserves_inv.
+  - by eapply crash_preserves_inv.
+Qed.
+
+Lemma hist_inv s ops : inv s → hist_ok s ops → inv (foldl step s ops).
+Proof.
+  revert s. induction ops as [|o tl IH]; intros s Hi Hok; [done|]. destruct Hok as [Ho Hok].
+  simpl. apply IH; [|done]. by apply step_inv.
+Qed.
+
+Lemma hist_ok_app s a b : hist_ok s (a ++ b) ↔ hist_ok s a ∧ hist_ok (foldl step s a) b.
+Proof.
+  revert s. induction a as [|o a IH]; intros s; simpl; [tauto|]. rewrite IH. tauto.
+Qed.
+
+(* the disk only grows, and never changes a stored blob, along any history *)
+Lemma step_disk_mono s o : inv s → disk s ⊆ disk (step s o).
+Proof.
+  intros (Hd & Hcc & Hc). destruct o; simpl.
+  - unfold cache_insert. by destruct (cache s !! h).
+  - unfold cache_reference. destruct (cache s !! parent); [|done].
+    destruct (cache s !! child); [|done]. by destruct (again || _).
+  - by apply put_all_mono.
+  - by apply put_all_mono.
+  - by apply put_all_mono.
+Qed.
+
+Lemma hist_disk_mono s ops : inv s → hist_ok s ops → disk s ⊆ disk (foldl step s ops).
+Proof.
+  revert s. induction ops as [|o tl IH]; intros s Hi Hok; [done|]. destruct Hok as [Ho Hok].
+  simpl. etrans; [by apply step_disk_mono|]. apply IH; [by apply step_inv|done].
 Qed.
 
 (* For every history, every commit in it, every crash point of that commit: the disk is closed,
@@ -538,4 +555,58 @@ Proof.
   split; [done|]. split.
   - intros r' Hr'. by apply top_implies_all.
   - intros r' Hr'. destruct (old_roots_kept s r' seq k Hc Hr') as (? & ? & _). done.
+Qed.
+
+(* A root that is resolvable on disk at some point of a history (in particular: was committed) is
+   resolvable, with the same nodes holding the same blobs, after any continuation of the history -
+   further commits, failed writes, crashes and restarts included. *)
+Lemma durable_forever ops1 ops2 r :
+  let s1 := foldl step (Store ∅ ∅) ops1 in
+  let s2 := foldl step (Store ∅ ∅) (ops1 ++ ops2) in
+  hist_ok (Store ∅ ∅) (ops1 ++ ops2) → resolvable (disk s1) r →
+  resolvable (disk s2) r
+  ∧ (∀ h, reach (disk s1) r h → disk s2 !! h = disk s1 !! h)
+  ∧ (∀ h, reach (disk s2) r h ↔ reach (disk s1) r h).
+Proof.
+  intros s1 s2 Hok Hr. apply hist_ok_app in Hok as [Hok1 Hok2].
+  apply grow_keeps_root; [|done]. unfold s2. rewrite foldl_app. fold s1.
+  apply hist_disk_mono; [|done]. unfold s1. by apply hist_inv; [apply inv_empty|].
+Qed.
+
+(* Commit(r) ran to the end ("reported success") at some point of a history: whatever happens
+   afterwards, r is on disk and resolvable from the disk alone, and every node the pre-commit view
+   (dirty cache over disk) reached from r is on disk with the same blob. *)
+Lemma committed_root_survives ops1 r seq ops2 :
+  let s := foldl step (Store ∅ ∅) ops1 in
+  let s2 := foldl step (Store ∅ ∅) (ops1 ++ OCommit r seq :: ops2) in
+  hist_ok (Store ∅ ∅) (ops1 ++ OCommit r seq :: ops2) → is_Some (view s !! r) →
+  is_Some (disk s2 !! r) ∧ closed (disk s2) ∧ resolvable (disk s2) r
+  ∧ (∀ h, reach (view s) r h → disk s2 !! h = view s !! h).
+Proof.
+  intros s s2 Hok Hv.
+  assert (hist_ok (Store ∅ ∅) ((ops1 ++ [OCommit r seq]) ++ ops2)) as Hok' by (by rewrite <- app_assoc).
+  pose proof Hok' as Hok''. apply hist_ok_app in Hok'' as [Hok1 _].
+  apply hist_ok_app in Hok1 as [Hok0 [Hrun _]]. fold s in Hrun. simpl in Hrun.
+  destruct (hist_inv _ _ inv_empty Hok0) as (Hd & Hcc & Hc). fold s in Hd, Hcc, Hc.
+  destruct (commit_complete s r seq Hc Hcc Hd Hrun Hv) as (Hr & Hcl & Hres & Hsame).
+  assert (disk (foldl step (Store ∅ ∅) (ops1 ++ [OCommit r seq])) = crash s seq (length seq)) as Hd1.
+  { rewrite foldl_app. fold s. simpl. unfold crash. by rewrite firstn_all. }
+  destruct (durable_forever (ops1 ++ [OCommit r seq]) ops2 r Hok') as (Hres2 & Hsame2 & _).
+  { by rewrite Hd1. }
+  assert (foldl step (Store ∅ ∅) ((ops1 ++ [OCommit r seq]) ++ ops2) = s2) as Es2
+    by (unfold s2; by rewrite <- app_assoc).
+  rewrite Es2, Hd1 in *.
+  destruct (hist_inv _ _ inv_empty Hok) as (Hd2 & _). fold s2 in Hd2.
+  split; [by apply Hres2; constructor|]. split; [done|]. split; [done|].
+  intros h Hh. rewrite <- Hsame by done. apply Hsame2.
+  (* reach in the view from r = reach in the committed disk from r *)
+  clear Hsame2 Hres2 Hd2 Es2 Hok Hok' Hok0 Hd1 s2.
+  assert (∀ r0 h, reach (view s) r0 h → is_Some (crash s seq (length seq) !! r0) →
+                  reach (crash s seq (length seq)) r0 h) as Hgen; [|eauto].
+  clear Hh h Hr Hres Hv. intros r0 h Hreach. induction Hreach as [r0|r0 cs x h Hrc Hx _ IH]; intros Hr0.
+  - constructor.
+  - destruct Hr0 as [a Ha].
+    assert (view s !! r0 = Some a) as Hva by (unfold crash in Ha; by eapply put_all_view).
+    rewrite Hrc in Hva. injection Hva as ->.
+    econstructor; [done..|]. apply IH. rewrite closed_spec in Hcl. eauto.
 Qed.
